@@ -55,6 +55,7 @@ struct FdEnt {
     bool canfd_enabled = false;
     std::vector<struct sock_filter> bpf;  // SO_ATTACH_FILTER: classic BPF program run on every datagram before it is queued
     std::vector<uint8_t> cork;    // UDP: data sent with MSG_MORE waits here for the send that completes the datagram
+    std::string bind_dev;        // SO_BINDTODEVICE
     bool connected = false;      // UDP: connect() was called - ICMP errors for what this socket sent are reported to it
     int pending_err = 0;         // ... as the error of its next send or receive
     size_t rcvbuf_bytes = 0;   // SO_RCVBUF as the kernel keeps it (twice the value asked for, at least 2304); 0 = the system default
@@ -110,7 +111,7 @@ struct Node {
     unsigned sp_deeper = 0;
     // resources held at the idle points: descriptors open, heap blocks obtained by the program's own malloc/calloc/realloc calls
     int fds_first = -1;
-    int64_t heap_live = 0, heap_live_bytes = 0, heap_first = -1;
+    int64_t heap_live = 0, heap_live_bytes = 0, heap_first = -1, heap_first_bytes = 0;
     uint64_t heap_allocs = 0;
 };
 
